@@ -281,6 +281,7 @@ def run_batch(check, tier: str, seed: int, runs: int | None = None, start: int =
     global _CHECK, _KNOWN
     t0 = time.time()
     cfg = check.TIERS[tier]
+    full_tier = runs is None            # only a full tier run (no --runs override) also runs the python -O leg
     runs = runs if runs is not None else cfg['runs']
     wall_cap_s = wall_cap_s if wall_cap_s is not None else cfg.get('wall_cap_s', 3600)
     workers = workers or int(os.environ.get('VERIF_WORKERS', '0')) or min(16, os.cpu_count() or 1)
@@ -292,7 +293,7 @@ def run_batch(check, tier: str, seed: int, runs: int | None = None, start: int =
             f'hashseed={os.environ.get("PYTHONHASHSEED")} kernpy={kernpy_src()}')
 
     canaries = run_canaries(check, known) if write_evidence and not leg else {}
-    opt_leg = run_optimised_leg(check, tier, seed) if not leg and runs is None else (0, None, 0)
+    opt_leg = run_optimised_leg(check, tier, seed) if not leg and full_tier else (0, None, 0)
     jobs = [(seed, tier, list(range(s, min(s + chunk, start + runs)))) for s in range(start, start + runs, chunk)]
     results = []
     harness_errors = []
